@@ -71,6 +71,9 @@ def inits(tier):
     # integer-typed DATA (counts): the fill value of an extension (x.5 here) must arrive unchanged
     out.append({"first": "0", "step": "1", "n": 3, "attr": True, "layout": "1d", "data": "int"})
     out.append({"first": "10/3", "step": "0.01", "n": 3, "attr": True, "layout": "2d_last", "data": "int"})
+    # data with a missing (NaN) sample: filling new samples must not touch it
+    out.append({"first": "0", "step": "1", "n": 3, "attr": True, "layout": "1d", "nan": True})
+    out.append({"first": "half", "step": "half", "n": 3, "attr": True, "layout": "2d_last", "nan": True})
     # a long axis with a fixed menu of transitions (depth 1)
     out.append({"first": "0", "step": "quarter", "n": LONG_N, "attr": True, "layout": "1d", "long": True})
     out.append({"first": "36000", "step": "quarter", "n": LONG_N, "attr": False, "layout": "1d", "long": True})
@@ -129,7 +132,13 @@ def make_initial(init):
         arr = xr.DataArray(np.stack([base, base * 100], axis=1), dims=["x", "ch"], coords={"x": var, "ch": [0, 1]})
     else:
         arr = xr.DataArray(np.stack([base, base * 100], axis=0), dims=["ch", "x"], coords={"x": var, "ch": [0, 1]})
-    return St(init, arr, 0, n - 1, {k: float(k + 1) for k in range(n)}, 0)
+    vals = {k: float(k + 1) for k in range(n)}
+    if init.get("nan"):
+        # one sample is missing (NaN) in the data: it must still be NaN, and only it, after every operation
+        arr = arr.copy()
+        arr.data[(1,) if lay == "1d" else ((1, slice(None)) if lay == "2d_first" else (slice(None), 1))] = np.nan
+        vals[1] = float("nan")
+    return St(init, arr, 0, n - 1, vals, 0)
 
 
 def spectrogram_axis():
@@ -270,6 +279,11 @@ def values_of(arr, init):
     return [(float(r[0]), float(r[1])) for r in d]
 
 
+def same_values(a, b):
+    """Tuple equality in which NaN equals NaN (a missing sample must stay a missing sample)."""
+    return len(a) == len(b) and all((x == y) or (x != x and y != y) for x, y in zip(a, b))
+
+
 def expected_tuple(v, init, is_fill):
     if init["layout"] == "1d":
         return (v,)
@@ -383,11 +397,11 @@ def step_fn(st, op, out):
         if k in st.vals and st.lo <= k <= st.hi:
             v = st.vals[k]
             isfill = v < 0
-            if g != expected_tuple(v, st.init, isfill) and bad_data is None:
+            if not same_values(g, expected_tuple(v, st.init, isfill)) and bad_data is None:
                 bad_data = {"index": k, "got": g, "expected": expected_tuple(v, st.init, isfill)}
             newvals[k] = v
         else:
-            if g != expected_tuple(fill, st.init, True) and bad_fill is None:
+            if not same_values(g, expected_tuple(fill, st.init, True)) and bad_fill is None:
                 bad_fill = {"index": k, "got": g, "expected": fill}
             newvals[k] = fill
     kept = [k for k in ks if st.lo <= k <= st.hi]
